@@ -321,6 +321,15 @@ func verifV1Scale(a, b JsonNode) string {
 	if s := verifV1RoundTrip(a, b, nil); s != "" {
 		return "C17: " + s
 	}
+	// the same two statements with an equality that does not go through Equals: without metadata two
+	// documents are equal exactly when their JSON texts are (these universes hold no -0)
+	d := a.Diff(b)
+	if (len(d) == 0) != (a.Json() == b.Json()) {
+		return "C17: diff empty but the documents differ (or the converse)"
+	}
+	if r, err := verifCloneNode(a).Patch(d); err != nil || r.Json() != b.Json() {
+		return "C17: the patched document is not b"
+	}
 	return ""
 }
 
